@@ -126,12 +126,46 @@ def check_case(ctx, case):
                 return
 
 
+def check_widen(ctx, case):
+    """the table must not depend on what the instance computed before: build with a small maxlag, read,
+    widen the spatial reach in place, compare with a fresh instance"""
+    wide = dict(case, maxlag=None)
+    small = dict(case, maxlag=0.4)
+    try:
+        V = build(small)
+        with quiet():
+            _ = V.experimental
+            V.maxlag = None
+            got = (np.asarray(V.xbins, float), np.asarray(V.experimental, float),
+                   np.asarray(V.get_marginal('space', 0), float))
+        F = build(wide)
+        with quiet():
+            want = (np.asarray(F.xbins, float), np.asarray(F.experimental, float),
+                    np.asarray(F.get_marginal('space', 0), float))
+    except (ValueError, RuntimeError) as e:
+        ctx.reject(type(e).__name__)
+        return
+    ctx.case(signature=('widen', case['x_lags'], case['estimator'], len(case['coords'])), stream='st-widen',
+             sample=dict(op='maxlag 0.4 -> None after a read', x_lags=case['x_lags']))
+    ctx.count('widen')
+    if not (all_close(got[0], want[0], rel=1e-12) and all_close(got[1], want[1], rel=1e-9) and
+            all_close(got[2], want[2], rel=1e-9)):
+        ctx.violation('table-after-widening', 'after maxlag 0.4 -> None on one instance: experimental %r, a fresh '
+                      'instance gives %r' % (got[1].tolist(), want[1].tolist()), dict(case, widen=True))
+
+
 def run(ctx):
     for k in range(ctx.n(60, 500)):
-        check_case(ctx, gen(ctx))
+        case = gen(ctx)
+        check_case(ctx, case)
+        if k % 3 == 0:
+            check_widen(ctx, case)
     ctx.lean.flush()
 
 
 def replay(ctx, body):
-    check_case(ctx, body['case'])
+    if body['case'].get('widen'):
+        check_widen(ctx, body['case'])
+    else:
+        check_case(ctx, body['case'])
     ctx.lean.flush()
